@@ -1,6 +1,6 @@
 (* C02 — Name::emit (C03.Model.emit_name) against Spec.Dec: the name written decodes to exactly its
    labels and every compression candidate stays decodable (PtrInv). *)
-From HV Require Import Lib.Base Lib.ListX C03.Model C03.Inv C02.Spec C02.NameRt.
+From HV Require Import Lib.Base Lib.ListX C03.Model C03.Inv C02.Spec C02.Model C02.NameRt.
 Open Scope N_scope.
 
 (* ------------------------------------------------------------------ *)
@@ -443,9 +443,6 @@ Qed.
 (* ------------------------------------------------------------------ *)
 (* Name::emit round trip                                               *)
 (* ------------------------------------------------------------------ *)
-
-Definition cased (mode : nmode) (n : name) : name :=
-  match mode with Lowercase => map (map lower) n | _ => n end.
 
 (* emit_name with the mode resolved into (compression?, case-adjusted labels) *)
 Definition emit_name' (compression : bool) (ls : name) (st : enc) : res enc :=
